@@ -1366,7 +1366,7 @@ def eval_cases(ctx, coq):
     terms = [flat(tag, data) for tag, data, meta in coq.items]
     # sentinel: a case that must be reported as failing (def f(a): f(| is index 0, not 1)
     terms.append(flat('TI', ([('a', PK)], [(0, '', False)], 1)))
-    fails, err = common.coq_failing(IMPORTS, 'run_flat', terms, shard=max(1500, len(terms) // 8 + 1), defs=DEFS, timeout=1800)
+    fails, err = common.coq_failing(IMPORTS, 'run_flat', terms, shard=min(4000, max(1500, len(terms) // 8 + 1)), defs=DEFS, timeout=1800)
     if err:
         raise RuntimeError('coq evaluation failed: ' + err)
     if len(terms) - 1 not in fails:
